@@ -22,7 +22,7 @@ What is generated (every run, from /repo's current source), fail-closed (`Unsupp
  * `adjGen osh : Expr α → Expr α` — Conj / Add / Compose / Hstack / Vstack / Diag `_adjoint_linop` rules.
  * `adjOpaque : Opaque α → Opaque α` — FFT↔IFFT, Wavelet↔InverseWavelet, ConvolveData(+Adjoint),
    ConvolveFilter(+Adjoint), NUFFT↔NUFFTAdjoint: class and arguments of the returned operator.
- * `applyGen : Leaf α → Option Prim` — for the twelve classes whose `_apply` is one call on `input`
+ * `applyGen : Leaf α → Option Prim` — for the fifteen classes whose `_apply` is one call on `input` (or `zeros; out[idx] = input`)
    (`return input`, `input.reshape(..)`, `input.transpose(..)`, `input[..]`, `util.resize/flip/circshift/downsample/
    upsample(input, ..)` with the arguments bound by the util function's signature read from util.py,
    `xp.asarray(xp.sum(input, axis=..))`, `block.array_to_blocks`, `interp.interpolate`): which primitive with which
@@ -592,7 +592,7 @@ def _finite_difference(tree):
 
 # ---- `_apply` bodies ---------------------------------------------------------------------------------
 APPLY_CLASSES = ["Identity", "Reshape", "Transpose", "Resize", "Flip", "Circshift", "Downsample", "Upsample", "Sum",
-                 "Slice", "ArrayToBlocks", "Interpolate"]
+                 "Slice", "Embed", "ArrayToBlocks", "BlocksToArray", "Interpolate", "Gridding"]
 UTIL_PRIMS = {"resize": ("resize", ["oshape", "ishift", "oshift"]), "flip": ("flip", ["axes"]),
               "circshift": ("circshift", ["shifts", "axes"]), "downsample": ("downsample", ["factors", "shift"]),
               "upsample": ("upsample", ["oshape", "factors", "shift"])}
@@ -636,7 +636,16 @@ def _apply_return(cname, fn):
 
 def _apply_arm(tree, util_tree, classes, cname):
     cls = classes[cname]
-    ret, alias = _apply_return(cname, T.find_function(tree, cname + "._apply"))
+    fn_apply = T.find_function(tree, cname + "._apply")
+    body = [x for x in fn_apply.body if not (isinstance(x, ast.Expr) and isinstance(x.value, ast.Constant))]
+    if len(body) == 3 and [_src(x) for x in body[::2]] == ["output = np.zeros(self.oshape, dtype=input.dtype)", "return output"] \
+            and isinstance(body[1], ast.Assign) and len(body[1].targets) == 1 and isinstance(body[1].targets[0], ast.Subscript) \
+            and _src(body[1].targets[0].value) == "output" and _src(body[1].value) == "input":
+        # zeros(oshape); out[idx] = input; return out
+        t0 = _Tr(classes, cname)
+        (osh,), (idx,) = t0.attr("oshape"), t0.tr(body[1].targets[0].slice)
+        return ".setitemZeros %s %s" % (osh, idx)
+    ret, alias = _apply_return(cname, fn_apply)
     tr = _Tr(classes, cname)
     if cname == "Transpose":
         # self.axes: None stays None, a tuple is normalised in __init__ (source pinned as for _adjoint_linop)
@@ -692,6 +701,17 @@ def _apply_arm(tree, util_tree, classes, cname):
             return ".%s %s" % (lean, " ".join(one(bound[q]) for q in want_params))
         if mod == "block" and fname == "array_to_blocks" and len(ret.args) == 3 and not ret.keywords:
             return ".arrayToBlocks %s %s" % (one(ret.args[1]), one(ret.args[2]))
+        if mod == "block" and fname == "blocks_to_array" and len(ret.args) == 4 and not ret.keywords:
+            return ".blocksToArray %s %s %s" % (one(ret.args[1]), one(ret.args[2]), one(ret.args[3]))
+        if mod == "interp" and fname == "gridding" and len(ret.args) == 3 and \
+                sorted(k.arg for k in ret.keywords) == ["kernel", "param", "width"]:
+            kw = dict((k.arg, k.value) for k in ret.keywords)
+            if tr.tr(kw["kernel"]) != []:
+                raise U("Gridding._apply: kernel argument %s" % _src(kw["kernel"]))
+            c = tr.tr(ret.args[1])
+            if len(c) != 2:
+                raise U("Gridding._apply: coord argument")
+            return ".gridding %s %s %s %s %s" % (one(ret.args[2]), c[0], c[1], one(kw["width"]), one(kw["param"]))
         if mod == "interp" and fname == "interpolate" and len(ret.args) == 2 and \
                 sorted(k.arg for k in ret.keywords) == ["kernel", "param", "width"]:
             kw = dict((k.arg, k.value) for k in ret.keywords)
